@@ -437,7 +437,7 @@ type c52Case struct {
 	RB     int    `json:"rb"`
 	Pre    int    `json:"pre"`
 	Cuts   []int  `json:"cuts"`
-	Fault  string `json:"fault,omitempty"` // flip | drop | swap | dup | trunc
+	Fault  string `json:"fault,omitempty"` // flip | len | drop | swap | dup | trunc
 	A      int    `json:"a,omitempty"`
 	B      int    `json:"b,omitempty"`
 }
@@ -801,6 +801,15 @@ func c52Mutate(sc *c52Scratch, st *c52Stream, fault string, a, b int) (wire []by
 		// bytes 5..7 of a record are the three high bytes of the 32-bit type
 		// field: plain framing, not ciphertext, not authenticated.
 		return wire, st.ptStart[k], o >= 5 && o <= 7, true
+	case "len":
+		// overwrite the length field of record a with b
+		if a >= n || b < 0 || b == len(rec(a))-4 {
+			return
+		}
+		wire = append(wire, st.wire...)
+		sc.wire = wire
+		binary.LittleEndian.PutUint32(wire[st.bounds[a]:], uint32(b))
+		return wire, st.ptStart[a], false, true
 	case "drop":
 		if a >= n {
 			return
@@ -914,6 +923,12 @@ func c52Faults(t *c52Tally, g c52Group, rbs []int, truncStep int) {
 		one("flip", pos, 7)
 	}
 	n := st.records()
+	for i := 0; i < n; i++ {
+		l := st.bounds[i+1] - st.bounds[i] - 4
+		for _, v := range []int{0, 1, 3, 4, 5, 19, 20, l - 1, l + 1, 1 << 20, 1<<20 + 1} {
+			one("len", i, v)
+		}
+	}
 	for i := 0; i < n; i++ {
 		one("drop", i, 0)
 		one("dup", i, 0)
@@ -1086,7 +1101,7 @@ func TestVerif_C52_ALTS(t *testing.T) {
 	defer r.Finish()
 	c52Register()
 	tally := &c52Tally{outcomes: map[string]int64{}, extra: map[string]int64{}, viols: map[string]bool{}, r: r}
-	r.Rule(c52P, "honest leg: for each record protocol {AES128-GCM, AES128-GCM-REKEY}, negotiated frame size of the menu, direction and write-size sequence over {0,1,P-1,P,P+1,2*frame} (P = frame-24) the real writer conn produces the stream once (wire parsed independently: every record <= frame limit); it is then read back by a fresh real reader conn for every read-buffer size of {1,7,P,frame} (inside the stated call bound) x every set of <=k cut offsets drawn from {record boundary-1,+0,+1,+2,+4,+6,+8 for every record, last byte} (k = 3, lowered to 2 or 1 only where subsets x stream size exceeds the stated work bound) x handshake-leftover prefixes {0,5,first boundary,first boundary+1,whole stream}; fault leg: on 2- and 3-record streams every byte position x {bit0,bit7} flip, drop/duplicate of each record, swap of each pair, truncation at every offset near a boundary/header and every n-th offset elsewhere, each x read-buffer sizes x 3 segmentations; counter leg: real Counter run from every listed start to invalidity (bitmap of handed-out values), real conns with a 1-byte overflow length written until sealing fails. Non-trivial = honest cases needing reassembly (>=2 records or >=1 cut or leftover prefix) + every fault case (distinct by construction).")
+	r.Rule(c52P, "honest leg: for each record protocol {AES128-GCM, AES128-GCM-REKEY}, negotiated frame size of the menu, direction and write-size sequence over {0,1,P-1,P,P+1,2*frame} (P = frame-24) the real writer conn produces the stream once (wire parsed independently: every record <= frame limit); it is then read back by a fresh real reader conn for every read-buffer size of {1,7,P,frame} (inside the stated call bound) x every set of <=k cut offsets drawn from {record boundary-1,+0,+1,+2,+4,+6,+8 for every record, last byte} (k = 3, lowered to 2 or 1 only where subsets x stream size exceeds the stated work bound) x handshake-leftover prefixes {0,5,first boundary,first boundary+1,whole stream}; fault leg: on 2- and 3-record streams every byte position x {bit0,bit7} flip, the length field of each record overwritten with {0,1,3,4,5,19,20,L-1,L+1,1 MiB,1 MiB+1}, drop/duplicate of each record, swap of each pair, truncation at every offset near a boundary/header and every n-th offset elsewhere, each x read-buffer sizes x 3 segmentations; counter leg: real Counter run from every listed start to invalidity (bitmap of handed-out values), real conns with a 1-byte overflow length written until sealing fails. Non-trivial = honest cases needing reassembly (>=2 records or >=1 cut or leftover prefix) + every fault case (distinct by construction).")
 	r.Assume(c52P, "negotiated frame sizes below 4 KiB are clamped to the 4 KiB ALTS minimum; sizes above 512 KiB are outside the property (the handshaker caps at 512 KiB) and are not exercised")
 	r.Assume(c52P, "the three high bytes of a record's 32-bit message-type field are framing, not ciphertext, and are covered by no integrity mechanism: flipping them is recorded as an outcome class and only 'never wrong plaintext' is demanded")
 	r.Assume(c52P, "truncation of the stream exactly at a record boundary is indistinguishable from a transport EOF: only 'true prefix, nothing from the cut record onwards' is demanded")
